@@ -119,3 +119,19 @@ Proof.
   intros Hn Hs Ht. destruct (dom63 n Hn) as [H1 H2]. rewrite spec_node_count_ncount in * by exact H1.
   apply auth_path_correct; assumption.
 Qed.
+
+(* every u64 node index >= 1 is a node of the MMR with 2^63 leafs (one perfect tree of height 63) *)
+Theorem main_node_u64 x : 1 <= x < 2 ^ 64 ->
+  exists pk t ni, f_locate (2 ^ 63) x = Some (pk, t, ni) /\
+    mm_right_lineage_length_and_own_height x = Some (ni_rll ni, ni_height ni) /\
+    mm_right_lineage_length_from_node_index x = Some (ni_rll ni) /\
+    mm_node_index_to_leaf_index x = Some (if ni_height ni =? 0 then Some (ni_first_leaf ni) else None).
+Proof.
+  intros Hx. assert (N : ncount (2 ^ 63) = 2 ^ 64 - 1) by reflexivity.
+  assert (H1 : 0 <= 2 ^ 63 < 2 ^ 64) by (pow_lits; lia).
+  assert (H2 : ncount (2 ^ 63) < 2 ^ 64) by (rewrite N; lia).
+  destruct (node_located (2 ^ 63) x H1 H2 ltac:(rewrite N; lia)) as (pk & t & ni & E & L & D & _).
+  exists pk, t, ni. split; [exact E|]. split; [exact L|].
+  split; [eapply rll_from_node_index_correct; [exact H1|exact H2|rewrite N; lia|exact E]|].
+  apply (node_index_to_leaf_index_desc x _ _ _ Hx D).
+Qed.
